@@ -264,6 +264,13 @@ class SymStr:
         return iter([SymStr([ch]) for ch in self.c])
 
     def __hash__(self):
+        # a harness may allow symbolic dict keys when it guarantees that no
+        # two keys of one dict can be equal (identity then decides lookups)
+        if getattr(core.ENG, 'allow_symkey_hash', False):
+            h_ = self.__dict__.get('_hid')
+            if h_ is None:
+                h_ = self.__dict__['_hid'] = core.ENG.next_obj_id()
+            return 0x5eed0000 + h_
         raise Unsupported('hash of SymStr')
 
     @guard
